@@ -6,6 +6,9 @@ caller / both), series, issue date, copy-tax} x the three ways options are passe
 bill.WithData raw JSON, bill.WithOptions struct), through gobl.Envelope.Correct; Replicate for every
 source; a subset again through the HTTP bulk endpoint of `gobl serve` and the `gobl correct` /
 `gobl replicate` commands.
+Sources also include addon COMBINATIONS no example ships (derived_sources: every example x every published addon that declares
+corrections, kept when the recalculated envelope validates), so that what one addon's normaliser does to the preceding reference
+is judged against the extensions another definition asks for.
 Per case the harness serialises the source before and after the call (must be byte-identical), then
 overwrites every settable leaf of the RESULT by reflection and serialises the source a third time
 (deterministic aliasing test), and lists pointer targets shared by result and source.
@@ -90,8 +93,10 @@ def ext_value(key, docs, rng):
 
 
 class Source:
-    def __init__(self, name, text):
+    def __init__(self, name, text, path=None, derived=None):
         self.name, self.text = name, text
+        self.path = path or os.path.join(REPO, name)      # where the envelope lies (command line entry points, replay)
+        self.derived = derived                            # None, or {"base": example, "addon": key, "position": "first"|"last"}
         self.env = json.loads(text)
         d = self.doc = self.env["doc"]
         self.regime = d.get("$regime")
@@ -102,6 +107,8 @@ class Source:
         self.adefs = [corr_defs(a) for a in ads if a is not None]
         self.cd = merged_def(self.rdefs, self.adefs)
         self.defdocs = [rd] + ads
+        # how many definitions (regime, each addon) contribute correction extensions of their own
+        self.ext_origins = sum(1 for cs in [self.rdefs or []] + self.adefs if any(c["extensions"] for c in cs if "bill/invoice".endswith(c["schema"])))
 
 
 # ----------------------------------------------------------------------------------------------
@@ -134,9 +141,15 @@ def make_case(src, typ, rng, force=None):
     prep = {"sign": f["sign"] if "sign" in f else rng.random() < 0.3}
     if mode in ("head", "both"):
         prep["head_stamps"] = [{"prv": k, "val": "SRC-" + k} for k in provs] + [{"prv": "verif-extra", "val": "SRC-extra"}]
+        # the header may list a stamp nobody asks for BEFORE the required ones (sat-sig before sat-uuid): the i-th stamp of the
+        # options is then not the i-th stamp of the header
+        if f.get("head_order", "extra-first" if rng.random() < 0.4 else "extra-last") == "extra-first":
+            prep["head_stamps"] = prep["head_stamps"][-1:] + prep["head_stamps"][:-1]
         prep["sign"] = True
     if mode in ("user", "both"):
-        opts["stamps"] = [{"prv": k, "val": "USR-" + k} for k in (provs if rng.random() < 0.8 else provs[:-1])]
+        # the caller's stamps: its own values, or (a client echoing what it read in the header) the header's values
+        echo = mode == "both" and f.get("echo", rng.random() < 0.2)
+        opts["stamps"] = [{"prv": k, "val": ("SRC-" if echo else "USR-") + k} for k in (provs if rng.random() < 0.8 else provs[:-1])]
     via = f.get("via") or rng.choice(["opts", "data", "struct"])
     return {"source": src.name, "prep": prep, "call": {"via": via, "opts": opts}}
 
@@ -535,7 +548,73 @@ def b64(s):
 
 
 # ----------------------------------------------------------------------------------------------
-def sources(c):
+def correction_addons():
+    """published addons that declare a correction definition for invoices (the ones that change what Correct asks for and writes)"""
+    out = []
+    for f in sorted(glob.glob(os.path.join(REPO, "data", "addons", "*.json"))):
+        d = json.load(open(f))
+        if any("bill/invoice".endswith(cdef["schema"]) for cdef in corr_defs(d)):
+            out.append(d["key"])
+    return out
+
+
+def derive_text(base_text, addon, position):
+    """the base example's document with one more addon enabled (first or last in $addons), recalculated and enveloped anew
+    by the library (gobl.Envelop); None when the library refuses"""
+    d = json.loads(base_text)["doc"]
+    cur = d.get("$addons") or []
+    d["$addons"] = [addon] + cur if position == "first" else cur + [addon]
+    v = parse_wire(run_go(["c08 envelop " + w(json.dumps(d))], shards=1)[0])
+    return v[1].decode() if v and v[0] == b"ok" else None
+
+
+def derived_sources(c, srcs, everything=False):
+    """addon COMBINATIONS no example ships: every valid example invoice x every published addon that declares corrections and is
+    not enabled yet, put first / last in $addons, recalculated by the library; kept when the new envelope validates.
+    quick tier: every combination in which two or more definitions (regime, addons) contribute correction extensions of their
+    own, and a rotating sample of the others; thorough (and tools/mkc16req.py): all of them."""
+    cands = []
+    for s in srcs:
+        if s.derived or os.path.isabs(s.name):
+            continue
+        for a in correction_addons():
+            if a in s.addons:
+                continue
+            for pos in ("last", "first"):
+                if pos == "first" and not s.addons:
+                    continue        # the same list
+                d = json.loads(json.dumps(s.doc))
+                d["$addons"] = [a] + s.addons if pos == "first" else s.addons + [a]
+                cands.append((s, a, pos, d))
+    envs = run_go(["c08 envelop " + w(json.dumps(d)) for _, _, _, d in cands], shards=16)
+    texts = []
+    for (s, a, pos, _), ol in zip(cands, envs):
+        v = parse_wire(ol)
+        if v and v[0] == b"ok":
+            texts.append((s, a, pos, v[1].decode()))
+    obs = run_go(["c08 orig " + w(t) for _, _, _, t in texts], shards=16)
+    ddir = os.path.join(WORK, "c16-derived")
+    os.makedirs(ddir, exist_ok=True)
+    multi, single = [], []
+    for (s, a, pos, t), ol in zip(texts, obs):
+        o = jc.Obs(parse_wire(ol)[0])
+        if not (o.parse == "ok" and o.validate == "ok"):
+            continue
+        name = "%s+%s@%s" % (s.name, a, pos)
+        d = Source(name, t, path=os.path.join(ddir, re.sub(r"[^A-Za-z0-9.+@-]", "_", name) + ".json"),
+                   derived={"base": s.name, "addon": a, "position": pos})
+        (multi if d.ext_origins >= 2 else single).append(d)
+    c.cov["derived_sources(valid)"] = {"candidates": len(cands), "extensions_from_two_or_more_definitions": len(multi), "others": len(single)}
+    if not everything:
+        c.rng.shuffle(single)
+        single = sorted(single[:10], key=lambda d: d.name)
+    out = multi + single
+    for d in out:
+        open(d.path, "w").write(d.text)
+    return out
+
+
+def sources(c, derived=None):
     out = []
     texts = []
     for f in jc.example_files():
@@ -569,6 +648,8 @@ def sources(c):
             out.append(Source(rel, t))
         else:
             c.count("example-not-valid(skipped)", 1)
+    if derived:
+        out += derived_sources(c, out, everything=(derived == "all"))
     return out
 
 
@@ -582,9 +663,10 @@ def run(c):
         c.report("extraction/oracle build failed: " + out[-800:], {"machinery": "oracle"}, no_input=True)
         return
     rng = c.rng
-    srcs = sources(c)
+    srcs = sources(c, derived="quick" if quick else "all")
     byname = {s.name: s for s in srcs}
     c.cov["sources"] = len(srcs)
+    c.cov["sources_derived(addon combinations)"] = sorted(s.name for s in srcs if s.derived)
     c.cov["regimes"] = sorted({s.regime for s in srcs if s.regime})
     c.cov["addons"] = sorted({a for s in srcs for a in s.addons})
     verd, viaC, refusals = {}, {}, {}
@@ -593,7 +675,7 @@ def run(c):
     # ---- the correction options schema the library offers for each source (gobl correct --options): every enumeration
     # lists a value once (a oneOf with a repeated const accepts nothing) and the types offered are the published ones
     for s_ in srcs:
-        p_ = subprocess.run([os.path.join(BIN, "gobl"), "correct", "--options", os.path.join(REPO, s_.name)], stdout=subprocess.PIPE,
+        p_ = subprocess.run([os.path.join(BIN, "gobl"), "correct", "--options", s_.path], stdout=subprocess.PIPE,
                             stderr=subprocess.PIPE, text=True, env=GOENV)
         c.count("options-schema", 1, s_.name)
         try:
@@ -638,6 +720,7 @@ def run(c):
         base = {}
         c.report("corpus/c16_requirements.json is missing", {"machinery": "tools/mkc16req.py"}, no_input=True)
     now = requirement_verdicts(srcs)
+    dv_of = {s_.name: s_.derived for s_ in srcs if s_.derived}
     for n, bt in sorted(base.items()):
         for t, e in sorted(bt.items()):
             cur = now.get(n, {}).get(t)
@@ -646,13 +729,13 @@ def run(c):
             c.count("requirements", 1, (n, t, "full"))
             if not cur["full"]:
                 c.report("%s corrected as %s with reason, every extension of the definition and the stamps supplied is refused" % (n, t),
-                         {"source": n, "type": t, "case": cur["cases"]["full"],
+                         {"source": n, "source_file": n, "source_derived": dv_of.get(n), "type": t, "case": cur["cases"]["full"],
                           "clause": "a correction with everything the regime requires is produced (it is refused only otherwise)"})
             for it in e["required"]:
                 c.count("requirements", 1, (n, t, it))
                 if it not in cur["required"] and it in cur["cases"]:
                     c.report("%s corrected as %s WITHOUT its %s is accepted (and the result validates); the regime / addon requires it" % (n, t, it),
-                             {"source": n, "type": t, "omitted": it, "case": cur["cases"][it],
+                             {"source": n, "source_file": n, "source_derived": dv_of.get(n), "type": t, "omitted": it, "case": cur["cases"][it],
                               "clause": "the preceding reference carries the reason, extensions and stamps the regime requires - otherwise the correction is refused"})
 
     # ---- cases ----
@@ -661,10 +744,23 @@ def run(c):
     for s in srcs:
         # the combination that trips the recorded finding is always present where the regime requires stamps
         cases.append(make_case(s, (s.cd["types"] or ["credit-note"])[0], rng,
-                               {"stamps": "both", "via": "data", "reason": True, "ext": True}))
+                               {"stamps": "both", "via": "data", "reason": True, "ext": True, "head_order": "extra-last", "echo": False}))
+        # raw JSON options naming stamps against a header that lists another stamp first, and against a header whose stamps the
+        # options repeat literally (nothing to see in the source's bytes: only the overwrite of the result shows a shared stamp)
+        cases.append(make_case(s, (s.cd["types"] or ["credit-note"])[0], rng,
+                               {"stamps": "both", "via": "data", "reason": True, "ext": True, "head_order": "extra-first", "echo": False}))
+        cases.append(make_case(s, (s.cd["types"] or ["credit-note"])[0], rng,
+                               {"stamps": "both", "via": "data", "reason": True, "ext": True, "echo": True}))
+        per_s = per if not s.derived else max(2, per // 3)
         for t in TYPES:
-            for _ in range(per * (3 if t in s.cd["types"] or (t and not s.cd["types"]) else 1)):
+            for _ in range(per_s * (3 if t in s.cd["types"] or (t and not s.cd["types"]) else 1)):
                 cases.append(make_case(s, t, rng))
+        if s.derived:
+            # an addon combination: the complete request (reason and EVERY extension of the merged definition) for each
+            # allowed type through each way of passing options - what one addon does to the reference must not undo another's
+            for t in sorted(set(s.cd["types"])):
+                for via in ("opts", "data", "struct"):
+                    cases.append(make_case(s, t, rng, {"via": via, "reason": True, "ext": True}))
     lines = [go_line(byname[k["source"]], k) for k in cases]
     log("cases", len(cases), round(time.time() - T0, 1))
     outs = run_go(lines, shards=16)
@@ -709,6 +805,9 @@ def run(c):
             viaC[k["call"]["via"]] = viaC.get(k["call"]["via"], 0) + 1
             replay = {"case": k, "source_file": src.name, "merged_definition": src.cd, "implementation_verdict": o.verdict,
                       "rerun": "tools/check C16 --replay <this file>"}
+            if src.derived:
+                replay.update(source_derived=src.derived, source_path=src.path,
+                              source_note="the example's document with one more addon in $addons, enveloped by gobl.Envelop; validates")
             # -- source intact
             if not o.same01:
                 data_stamps = (not replicate and k["call"]["via"] == "data" and "stamps" in k["call"]["opts"] and k["prep"].get("head_stamps"))
@@ -728,6 +827,12 @@ def run(c):
                 for a in o.aliases:
                     key = re.sub(r"\d+", "*", "%s == %s" % a)
                     alias_obs[key] = alias_obs.get(key, 0) + 1
+                if o.aliases and copied:
+                    # (while the recorded finding was open the shared header stamps were its symptom and went to the correspondence)
+                    rep("shared", "the %s shares objects with its source: writing to the result's %s changes the source's %s (source differs at %s after "
+                        "overwriting the result)" % ("replica" if replicate else "correction", o.aliases[0][0], o.aliases[0][1], first_diff(o.b0, o.b2)),
+                        dict(replay, clause="correcting or replicating never changes the source envelope, document, header or signatures (the new "
+                             "envelope is a deep copy: nothing done with it reaches the source)", shared=o.aliases[:10], source_before=o.b0, source_after_overwriting_result=o.b2))
                 if not o.aliases:
                     rep("alias?", "overwriting the result changed the source but no shared object was found", dict(replay, source_after=o.b2), no_input=True)
             # -- oracle P
@@ -808,6 +913,8 @@ def run(c):
         expect_ok = o.verdict == "ok" and o.validates == "ok"
         replay = {"case": k, "entry": entry, "source_file": src.name, "library_verdict": o.verdict, "library_result_validates": o.validates,
                   "response_error": error}
+        if src.derived:
+            replay.update(source_derived=src.derived, source_path=src.path)
         if (payload is not None) != expect_ok:
             rep(entry + "v", "%s %s but the library %s (result validates: %s)" % (entry, "accepted" if payload is not None else "refused",
                                                                                 "accepts" if o.verdict == "ok" else "refuses with " + o.verdict, o.validates), replay)
@@ -856,7 +963,10 @@ def run(c):
 
     if not (verd.get("ok") and refusals.get("invalid-type") and refusals.get("missing-type") and refusals.get("missing-stamp") and refusals.get("missing-reason")):
         c.report("sweep is vacuous: a verdict class never occurred: %r %r" % (verd, refusals), {"machinery": "classes"}, no_input=True)
-    c.cov["rule"] = ("sources = example envelopes under **/out/*.json holding a bill/invoice that validates; cases = source x correction type "
+    c.cov["rule"] = ("sources = example envelopes under **/out/*.json holding a bill/invoice that validates, plus DERIVED sources: each of them with one more "
+                     "published correction-declaring addon enabled (first / last in $addons), re-enveloped by the library and valid (quick: all whose merged "
+                     "definition takes extensions from >= 2 definitions + 10 others; with the complete request per allowed type x way of passing options); "
+                     "header stamps with the unrequested stamp last or first, caller's stamps with own or the header's values; cases = source x correction type "
                      "(6 invoice types + none) x random subsets of {reason, ext (keys of the merged correction definition, values from the published extension "
                      "definitions), stamps in the header / from the caller / both / none, series, issue date, copy_tax, signed} x {functional options, WithData, "
                      "WithOptions}, plus per source the combination header-stamps + WithData-with-stamps; replicate x {unsigned, signed, signed with header stamps}; "
@@ -875,7 +985,14 @@ def replay(path):
     build_harness()
     if "case" in r and "source_file" in r:
         k = r["case"]
-        text = open(os.path.join(REPO, r["source_file"])).read()
+        if r.get("source_derived"):
+            dv = r["source_derived"]
+            text = derive_text(open(os.path.join(REPO, dv["base"])).read(), dv["addon"], dv["position"])
+            if text is None:
+                print("the derived source can no longer be built:", dv)
+                return 1
+        else:
+            text = open(os.path.join(REPO, r["source_file"])).read()
         if k["call"]["via"] == "-":
             line = "c16 replicate %s %s" % (w(text), w(json.dumps(k["prep"])))
         else:
@@ -884,6 +1001,10 @@ def replay(path):
         print("case:", json.dumps(k))
         print("implementation: verdict=%s source-unchanged-by-call=%s source-unchanged-after-overwriting-result=%s shared=%s" % (
             o.verdict, getattr(o, "same01", None), getattr(o, "same02", None), getattr(o, "aliases", None)))
+        if getattr(o, "res", None):
+            dd = o.res.get("doc") or {}
+            print("result: type=%s code=%r tax.ext=%s preceding=%s" % (dd.get("type"), dd.get("code"), json.dumps((dd.get("tax") or {}).get("ext")),
+                                                                       json.dumps([{kk: vv for kk, vv in p.items() if kk != "tax"} for p in dd.get("preceding") or []])))
         if getattr(o, "b1", None) is not None:
             print("source header before:", json.dumps(o.b0["head"]))
             print("source header after: ", json.dumps(o.b1["head"]))
